@@ -121,6 +121,15 @@ class Harness:
         class Rec(Core.System):
             def execute(self):
                 log.append(self.id)
+        if self.style == 'mixin':
+            # systems whose execute() is not written in a System subclass body: inherited from a mixin listed first, or
+            # assigned to the class afterwards
+            class Logs:
+                def execute(self):
+                    log.append(self.id)
+
+            class Rec(Logs, Core.System):      # noqa - redefinition on purpose
+                pass
 
         style = self.style
 
@@ -423,7 +432,8 @@ def configs(tier):
             yield (pos, tc, 4 if tier == 'quick' else 6, False)
     for pos in POS:
         yield (pos, 1, 4 if tier == 'quick' else 6, False, True)       # caller-supplied quiet logger
-    for style in ('self_removing', 'raises', 'finite_ends', 'gated', 'spawning', 'unimplemented', 'truthy', 'broken_logger'):
+    for style in ('self_removing', 'raises', 'finite_ends', 'gated', 'spawning', 'unimplemented', 'truthy', 'broken_logger',
+                  'mixin'):
         for pos in ('first', 'mid', 'last'):
             for tc in ((1,) if tier == 'quick' else TCS):
                 yield (pos, tc, 4 if tier == 'quick' else 6, False, False, style)
@@ -483,12 +493,24 @@ def after_completion_case(case):
     class Rec(Core.System):
         def execute(self):
             log.append((self.id, self.model.systems.timestep))
+
+        def clean_up(self):          # user code as well: a completed model does not call it on its own
+            log.append((self.id, 'clean_up'))
+            super().clean_up()
     for sid, kw in (('every9', {'frequency': 9}), ('late', {'start': 40}), ('over', {'end': 1}), ('each', {})):
         if sid in case['systems']:
             m.systems.add_system(Rec(sid, m, **kw))
     m.execute(case['warm'])
+    if case.get('inside'):
+        # the model is completed by a system DURING the next timestep (its last)
+        class Fin(Core.System):
+            def execute(self):
+                self.model.complete()
+        m.systems.add_system(Fin('fin', m, priority=-5))
+        m.execute()
     n0, t0 = len(log), m.timestep
     m.complete()
+    snap0 = public_snapshot(m)
     for i in range(case['requests']):
         k = i % 4
         if k == 0:
@@ -505,7 +527,8 @@ def after_completion_case(case):
             else:
                 raise Violation(f'advance request {i} on the completed model: execute_systems(throw_error=True) did not '
                                 f'raise', expected='ModelCompleteError', observed='no exception')
-        if len(log) != n0 or m.timestep != t0 or m.systems.timestep != t0 or m.is_running():
+        if len(log) != n0 or m.timestep != t0 or m.systems.timestep != t0 or m.is_running() or \
+                (i % 97 == 0 and public_snapshot(m) != snap0):
             raise Violation(f'advance request {i} ({["execute()", "execute(%d)" % case["big"], "execute_systems()", "strict"][k]}) '
                             f'on a completed model with systems {case["systems"]}: something ran, the clock moved or the '
                             f'model runs again', expected=[n0, t0, False],
@@ -651,6 +674,9 @@ def run(ctx):
     extra = [{'leg': 'after_completion', 'systems': sy, 'warm': w_, 'requests': 2400 if not ctx.small else 40, 'big': big}
              for sy in (['every9'], ['late'], ['over', 'each'], ['every9', 'late', 'over']) for w_ in (2, 5)
              for big in (8, 20)]
+    # completion at and around timesteps 64 / 128 / 256 (amortised house-keeping), from outside and by a system
+    extra += [{'leg': 'after_completion', 'systems': ['over', 'each', 'every9'], 'warm': w_, 'requests': 70, 'big': 8, 'inside': ins}
+              for w_ in (62, 63, 64, 127, 128, 255, 256) for ins in (False, True)]
     extra += [{'leg': 'reentrant', 'where': wh, 'pos': pos} for wh in ('after', 'inside') for pos in ('first', 'mid', 'last')]
     for case in extra:
         ctx.traces += 1
